@@ -293,6 +293,29 @@ func run(c *harness.Ctx, i int) {
 		} else {
 			doneAtSave = nil
 		}
+		if opt.StateInitFile != "" {
+			// The pre-loading of this session runs in the background. A real restart ends it; within this one process
+			// it would carry on into the next "session" and write into a cache file the harness has meanwhile
+			// shortened or replaced. Wait for it: with a healthy store, read a byte of every chunk (a load in progress
+			// holds the chunk's lock; a chunk that is loaded is not written again).
+			w.ms.SetFault(nil)
+			one := make([]byte, 1)
+			if sf != nil {
+				if h, err := sf.Open(); err == nil {
+					for _, ch := range idx.Chunks {
+						h.ReadAt(one, int64(ch.Start))
+					}
+					h.Close()
+				}
+			} else if ff != nil {
+				if fh, st := ff.Open(); st == fuse.OK {
+					for _, ch := range idx.Chunks {
+						ff.Read(fh, ch.Start, 1)
+					}
+					ff.Release(fh)
+				}
+			}
+		}
 	}
 	if w.viol {
 		return
